@@ -1247,9 +1247,11 @@ class ChoicePayloadDecoder(ConstructedPayloadDecoderBase):
                     **dict(options, allowEoo=True))
 
             else:
+                # the header of the chosen component has been consumed
+                # already, what follows is its contents, not a sentinel
                 iterator = decodeFun(
                     substrate, asn1Object.componentType.tagMapUnique,
-                    tagSet, length, state, **dict(options, allowEoo=True))
+                    tagSet, length, state, **options)
 
             for component in iterator:
 
@@ -1278,6 +1280,10 @@ class ChoicePayloadDecoder(ConstructedPayloadDecoderBase):
 
             if not isTagged or component is eoo.endOfOctets:
                 break
+
+        if not len(asn1Object):
+            raise error.PyAsn1Error(
+                'No component inside CHOICE at %s' % (tagSet,))
 
         yield asn1Object
 
